@@ -20,6 +20,9 @@ def _all_finite(value) -> bool:
     try:
         return bool(np.isfinite(value).all())
     except TypeError:
+        # not numeric as a whole (e.g. a tuple holding a float and None): the numbers a sequence contains are tested
+        if isinstance(value, (list, tuple)) or (isinstance(value, np.ndarray) and value.ndim > 0):
+            return all(_all_finite(v) for v in value)
         return True  # only numeric types can be tested for finiteness, for others it is meaningless
     except ValueError:
         return all(_all_finite(v) for v in value)  # ragged sequence: test the elements
